@@ -169,7 +169,8 @@ def section(rep, wa, mutate=None, dirs=None, symconst=False):
 
 
 def section_propagate(rep, wa, mutate=None):
-    """propagate_errors on a two-row trajectory: one trapezoidal step = x0 + t (F x0 + B u)"""
+    """propagate_errors on a three-row trajectory with stamps 0, t, t + mu t (mu symbolic: irregular
+    sampling): row 1 = x0 + t (F x0 + B u), row 2 = x0 + (1 + mu) t (F x0 + B u) through order t"""
     import numpy as np
     import pandas as pd
     import z3
@@ -187,10 +188,14 @@ def section_propagate(rep, wa, mutate=None):
     if not wa:
         pva['VD'] = J(0)
     rate = O([S.var('q_%s' % c) for c in TRAJECTORY_COLS])
+    mu = S.var('mu')
+    S.C.dom += [z3.Real('mu') >= S.rat(S.Fr(1, 5)), z3.Real('mu') <= 5]
     row1 = pd.Series([pva.iloc[i] + rate[i] * t for i in range(9)], index=TRAJECTORY_COLS, dtype=object)
+    row2 = pd.Series([pva.iloc[i] + rate[i] * t * (1 + mu) for i in range(9)], index=TRAJECTORY_COLS, dtype=object)
     if not wa:
         row1['VD'] = J(0)
-    traj = pd.DataFrame([pva.values, row1.values], columns=TRAJECTORY_COLS, index=pd.Index([J(0), t], dtype=object), dtype=object)
+        row2['VD'] = J(0)
+    traj = pd.DataFrame([pva.values, row1.values, row2.values], columns=TRAJECTORY_COLS, index=pd.Index([J(0), t, t * (1 + mu)], dtype=object), dtype=object)
     e0 = pd.Series([S.var('e_%s' % c) for c in TRAJECTORY_ERROR_COLS], index=TRAJECTORY_ERROR_COLS, dtype=object)
     if not wa:
         e0['down'] = J(0)
@@ -212,6 +217,8 @@ def section_propagate(rep, wa, mutate=None):
         obls.append(enga.zero('%s propagate_errors: row 1 internal state %d, order t^0' % (tag, i), J(merr.values[1][i]).part(0) - x0[i], 'propagate_errors', meta=meta))
         obls.append(enga.zero('%s propagate_errors: row 1 internal state %d, order t^1 = (F x0 + B_gyro g + B_accel a)' % (tag, i),
                               J(merr.values[1][i]).part(1) - xdot[i], 'propagate_errors', meta=meta))
+        obls.append(enga.zero('%s propagate_errors: row 2 (irregular stamps 0, t, t + mu t) internal state %d, order t^1 = (1 + mu) (F x0 + B_gyro g + B_accel a)' % (tag, i),
+                              J(merr.values[2][i]).part(1) - (1 + mu) * xdot[i], 'propagate_errors', meta=meta))
     back = np.dot(Tout, x0)
     for i, c in enumerate(TRAJECTORY_ERROR_COLS):
         obls.append(enga.zero('%s propagate_errors: output row 0 %s = T_out T_int e0' % (tag, c), J(terr.values[0][i]).part(0) - back[i], 'propagate_errors', meta=meta))
@@ -401,8 +408,11 @@ def replay(spec):
     fails = []
     if spec.get('check') == 'propagate':
         dt = 1e-3
-        rows = np.vstack([pva.values, pva.values])
-        traj = pd.DataFrame(rows, columns=TRAJECTORY_COLS, index=[0.0, dt])
+        mu_ = float(min(5.0, max(0.2, pt.get('mu', 2.5))))
+        if abs(mu_ - 1) < 0.1:
+            mu_ = 2.5
+        rows = np.vstack([pva.values, pva.values, pva.values])
+        traj = pd.DataFrame(rows, columns=TRAJECTORY_COLS, index=[0.0, dt, dt + mu_ * dt])
         e0 = pd.Series(np.arange(1.0, 10.0) * 0.1, index=error_model.TRAJECTORY_ERROR_COLS)
         if not wa:
             e0['down'] = 0.0
@@ -414,6 +424,10 @@ def replay(spec):
         want = x0 + dt * (F @ x0 + Bg @ gy + Ba @ ac)
         if not np.allclose(merr.values[1], want, rtol=1e-9, atol=1e-12):
             fails.append('propagate_errors: one step != x0 + dt (F x0 + B u)')
+        # second, longer step (irregular stamps): trapezoidal step from row 1 with constant F, B
+        want2 = want + mu_ * dt * (F @ want + Bg @ gy + Ba @ ac)
+        if not np.allclose(merr.values[2], want2, rtol=1e-9, atol=1e-12):
+            fails.append('propagate_errors: the second step (length %.3g x the first) != x1 + dt2 (F x1 + B u): max deviation %.3g' % (mu_, np.abs(merr.values[2] - want2).max()))
         return {'violated': bool(fails), 'detail': fails}
     k = pr.get('dir', 0)
     res = defect_oracle(pva, w, f, wa, k, pt)
